@@ -1,5 +1,5 @@
-"""setup: regenerate tables, full Coq build (all .vo), all drivers."""
-import os, sys, glob, re
+"""setup: regenerate tables, build the Coq files and drivers of every claimed property (MANIFEST.json)."""
+import os, sys, glob, re, json, importlib
 import common
 
 
@@ -14,15 +14,31 @@ def main():
         print("grep gate:", gate)
         return 1
     common.ensure_makefile()
-    rc, out = common.sh("timeout 3400 make -j16", cwd=common.COQ, timeout=3500)
+    man = json.load(open(os.path.join(common.VERIF, "MANIFEST.json")))
+    props = [c["property_id"] for c in man.get("checks", [])]
+    targets, drivers = [], []
+    for p in props:
+        targets.append("Props/%s.vo" % p)
+        try:
+            mod = importlib.import_module(p.lower())
+        except Exception as e:
+            print("cannot import harness module for", p, e)
+            return 1
+        names = [getattr(mod, "DRIVER", None)] + list(getattr(mod, "EXTRA_DRIVERS", []))
+        for d in names:
+            if d:
+                drivers.append(d)
+                targets.append("Extract/Extract%s.vo" % d)
+        targets += list(getattr(mod, "EXTRA_TARGETS", ()))
+    os.makedirs(common.ML, exist_ok=True)
+    rc, out = common.sh("timeout 3400 make -j16 %s" % " ".join(sorted(set(targets))), cwd=common.COQ, timeout=3500)
     print(out[-3000:])
     if rc != 0:
         return 1
-    for f in sorted(glob.glob(os.path.join(common.COQ, "Extract", "Extract*.v"))):
-        name = re.match(r"Extract(.*)\.v", os.path.basename(f)).group(1)
-        rc, out = common.build_driver(name)
-        print("driver", name, rc, out[-500:])
+    for d in sorted(set(drivers)):
+        rc, out = common.build_driver(d)
+        print("driver", d, rc, out[-500:])
         if rc != 0:
             return 1
-    print("setup ok")
+    print("setup ok: %d properties, %d drivers" % (len(props), len(set(drivers))))
     return 0
